@@ -276,8 +276,8 @@ pub(super) fn load_styles<R: Read + std::io::Seek>(
     let mut cell_style_xfs = Vec::new();
     let cell_style_xfs_nodes = style_sheet
         .children()
-        .filter(|n| n.has_tag_name("cellStyleXfs"))
-        .collect::<Vec<Node>>()[0];
+        .find(|n| n.has_tag_name("cellStyleXfs"))
+        .ok_or_else(|| XlsxError::Xml("Missing cellStyleXfs in xl/styles.xml".to_string()))?;
     for xfs in cell_style_xfs_nodes.children() {
         let num_fmt_id = get_number(xfs, "numFmtId");
         let font_id = get_number(xfs, "fontId");
